@@ -90,7 +90,15 @@ func verifPlaylistBlob(p playlist.Playlist) []byte {
 
 func verifStub_PlaylistUnmarshal(byts []byte) (playlist.Playlist, error) {
 	if len(byts) == 4 && byts[0] == '#' && byts[1] == 'M' { // served by a muxer of the same run
-		return verifMediaLog[int(byts[2])|int(byts[3])<<8], nil
+		m := verifMediaLog[int(byts[2])|int(byts[3])<<8]
+		// the stub is the identity on what the real decoder accepts; it rejects what the real one rejects as "not set"
+		if m.TargetDuration == 0 {
+			return nil, &verifHTTPError{"TARGETDURATION not set"}
+		}
+		if len(m.Segments) == 0 {
+			return nil, &verifHTTPError{"no segments found"}
+		}
+		return m, nil
 	}
 	if len(byts) == 4 && byts[0] == '#' && byts[1] == 'V' {
 		return verifMultiLog[int(byts[2])|int(byts[3])<<8], nil
